@@ -155,6 +155,9 @@ def history(kind):
             if op == "rootnew":
                 nb += 3                   # the three slots window.c's bindings take
             continue
+        if owner == "win" and rng.random() < 0.04:
+            out.append("rootclose"); stats["op_rootclose"] += 1      # the owner window is closed: its bindings stay
+            continue
         r = rng.random()
         if nb == 0 or r < 0.40:
             out.append("bind %d %d %d" % (pick_event(owner, True), pick_flags(), rng.randrange(nh)))
